@@ -36,10 +36,40 @@ func (ex *Exec) callResolved(st *State, frID int, instr ssa.Instruction, cc *ssa
 	}
 	switch f := fnVal.(type) {
 	case *ssa.Builtin:
+		if f.Name() == "append" && len(args) == 2 {
+			// two paths: the capacity suffices (write into the shared array) or not (fresh array)
+			st2 := st.Clone()
+			ex.appendMode = 1
+			v1 := ex.appendOp(st, instr, cc, args)
+			ex.appendMode = 2
+			v2 := ex.appendOp(st2, instr, cc, args)
+			ex.appendMode = 0
+			if !ex.lastAppendTrivial {
+				k(st2, []Val{v2})
+			}
+			k(st, []Val{v1})
+			return
+		}
 		k(st, ex.builtin(st, frID, instr, f, cc, args))
 	case *ClosureV:
 		ex.callFunc(st, frID, instr, f.Fn, f.Bind, args, cc, k)
 	default:
+		// a function value loaded from a struct field may have a contract attached to the field
+		// (pkg.Type.field): every function stored there is obliged to satisfy it
+		if u, ok := cc.Value.(*ssa.UnOp); ok {
+			if fa, ok := u.X.(*ssa.FieldAddr); ok {
+				if n := namedOf(fa.X.Type()); n != nil {
+					fk := typeKey(n) + "." + structOf(deref(fa.X.Type())).Field(fa.Field).Name()
+					if fc := ex.ctx.specs.Funcs[fk]; fc != nil {
+						recv := ex.val(st, st.Frames[frID], fa.X)
+						ex.externs[fk+" (contract on a function-typed field)"] = true
+						sig := cc.Signature()
+						ex.applyContract(st, frID, instr, fc, sig, append([]Val{recv}, args...), k)
+						return
+					}
+				}
+			}
+		}
 		// unknown function value: assumed pure with an unconstrained result
 		ex.assumed["call through unknown function value in "+ex.fn.Name()+" assumed pure"] = true
 		k(st, ex.freshResults(st, cc.Signature().Results(), "dyncall"))
@@ -394,12 +424,22 @@ func (ex *Exec) appendOp(st *State, instr ssa.Instruction, cc *ssa.CallCommon, a
 		tlen = tv.Len
 	}
 	n := Add(s.Len, tlen)
+	ex.lastAppendTrivial = false
 	if z, ok := tlen.numeral(); ok && z.Sign() == 0 {
+		ex.lastAppendTrivial = true
 		return s
 	}
 	// the engine does not fork here: it introduces one result slice whose shape depends on
 	// whether the capacity suffices (in place, writing the shared array) or not (fresh array)
 	inPlace := Le(n, s.Cap)
+	switch ex.appendMode {
+	case 1:
+		st.Assume(inPlace)
+		inPlace = True
+	case 2:
+		st.Assume(Not(inPlace))
+		inPlace = False
+	}
 	fresh := ex.freshRef(st, "arr")
 	resArr := Ite(inPlace, s.Arr, fresh)
 	resOff := Ite(inPlace, s.Off, IntT(0))
@@ -424,15 +464,15 @@ func (ex *Exec) appendOp(st *State, instr ssa.Instruction, cc *ssa.CallCommon, a
 			tsrc = func(j Term) Term { return App(SInt, "bat", tb, j) }
 		} else {
 			oldT := Select(h, tv.Arr)
-			tsrc = func(j Term) Term { return Select(oldT, Add(tv.Off, j)) }
+			tsrc = func(j Term) Term { return Select(oldT, Ix(tv.Off, j)) }
 		}
 		// in place: positions off+len .. off+n of s.Arr get t
 		lo := Add(s.Off, s.Len)
 		inArr := ex.rangeUpdate(st, oldS, lo, Add(s.Off, n), func(j Term) Term { return tsrc(Sub(j, lo)) })
 		// fresh: positions 0..len from s, len..n from t
 		frArr := ex.D.Fresh("app", ArrSort(c.Sort))
-		st.Assume(Term{fmt.Sprintf("(forall ((j Int)) (! (and (=> (and (<= 0 j) (< j %s)) (= (select %s j) (select %s (+ %s j)))) (=> (and (<= %s j) (< j %s)) (= (select %s j) %s))) :pattern ((select %s j))))",
-			s.Len.S, frArr.S, oldS.S, s.Off.S, s.Len.S, n.S, frArr.S, tsrc(Sub(Term{"j", SInt}, s.Len)).S, frArr.S), SBool})
+		st.Assume(Term{fmt.Sprintf("(forall ((j Int)) (! (and (=> (and (<= 0 j) (< j %s)) (= (select %s j) (select %s %s))) (=> (and (<= %s j) (< j %s)) (= (select %s j) %s))) :pattern ((select %s j))))",
+			s.Len.S, frArr.S, oldS.S, Ix(s.Off, Term{"j", SInt}).S, s.Len.S, n.S, frArr.S, tsrc(Sub(Term{"j", SInt}, s.Len)).S, frArr.S), SBool})
 		if name == "[]uint8" {
 			var tc Term
 			if isStr {
@@ -530,7 +570,7 @@ func (ex *Exec) copyOp(st *State, instr ssa.Instruction, cc *ssa.CallCommon, arg
 			src = func(j Term) Term { return App(SInt, "bat", sb, Sub(j, d.Off)) }
 		} else {
 			oldS := Select(h, sv.Arr)
-			src = func(j Term) Term { return Select(oldS, Add(sv.Off, Sub(j, d.Off))) }
+			src = func(j Term) Term { return Select(oldS, Ix(sv.Off, Sub(j, d.Off))) }
 		}
 		na := ex.rangeUpdate(st, oldD, d.Off, Add(d.Off, n), src)
 		if name == "[]uint8" {
